@@ -108,7 +108,7 @@ func init() {
 		Prepare: func(rc *RunCtx) error {
 			maxTok, maxAtoms, nb, sample, rsample := 2, 2, 60, 100, 60
 			if rc.Tier == "thorough" {
-				nb, sample, rsample = 0, 2000, 1500
+				nb, sample, rsample = 0, 500, 400
 			}
 			mask := enumerateMaskRules(maxTok, sample, rc.Seed)
 			rx := enumerateRegexRulesSampled(maxAtoms, rsample, rc.Seed)
@@ -141,7 +141,7 @@ func init() {
 			jobs := []Job{{Pkg: "rules", Func: "verifMaskVacuity", Vacuity: true}}
 			maxL, hostL := 12, 8
 			if tier == "thorough" {
-				maxL, hostL = 20, 12
+				maxL, hostL = 16, 10
 			}
 			nm := curRun.Natives["nmask"].(int)
 			nx := curRun.Natives["nregex"].(int)
@@ -166,7 +166,7 @@ func init() {
 		MustReach: []string{"c03b.rule", "c05.rule", "c05.accepts"},
 		Bounds: map[string]string{
 			"quick":    "mask patterns of 1..2 tokens (as C03) + 100 seeded longer ones; regular expressions of 1..2 atoms over 25 atoms plus 60 seeded ones of 3..4 atoms and up to 90 nested-group shapes ((inner group) outer quantifier, literal tail) (literals, \\d \\w \\s \\b \\. \\/ \\xHH, classes, groups with alternation, | * + {m,n} ? ^ $ .); the first 60 regular-expression rules of the bundled lists; for each rule ALL URLs of 0..12 printable-ASCII bytes and ALL hostnames of 1..8 bytes",
-			"thorough": "mask 1..2 tokens plus 2000 seeded longer ones, regular expressions 1..2 atoms plus 1500 seeded ones of 3..4 atoms, every regular-expression rule of the bundled lists; URLs 0..20 bytes, hostnames 1..12 bytes",
+			"thorough": "mask 1..2 tokens plus 500 seeded longer ones, regular expressions 1..2 atoms plus 400 seeded ones of 3..4 atoms and the nested-group shapes, every regular-expression rule of the bundled lists; URLs 0..16 bytes, hostnames 1..10 bytes (the earlier bound, URLs to 20 bytes with 3500 seeded rules, did not finish in 50 minutes and is not claimed)",
 		},
 		Outside:     []string{"URLs longer than the bound (a rule whose shortest match is longer is vacuously covered)", "non-ASCII bytes", "look-arounds (rejected by Go's regexp: the rule is invalid and never matches)"},
 		Assumptions: []string{"regexp encoding == (*Regexp).MatchString on ASCII (validated on concrete strings each run)"},
